@@ -4,13 +4,43 @@
 //   dplace run < cases
 // case: "DM nrows (minX maxX y orient)* ncells (w x row pol orient)* nops (0 c1 c2 | 1 c row pred | 2 c | 3 c row pred x)*"
 // result: per op "OK|NO <state>" joined by " / ";  state = rows ';'-separated, each "id:x:orient,..."; then "|" loose ids
+// a case with the tag "DC" instead of "DM" (same payload) additionally prints after every state
+// " # first=.. last=.. pred=.. next=.. row=.. x=.. y=.. orient=.." = the private index arrays
+// rowFirstCell_/rowLastCell_/cellPred_/cellNext_/cellRow_/cellX_/cellY_/cellOrientation_ (compared with
+// the concrete model coq/MovesConcrete.v)
 #include "cgen.hpp"
+#define private public
 #include "place_detailed/detailed_placement.hpp"
+#undef private
 
+// rowCells() with a bound: a corrupted (cyclic) cellNext_ chain must not hang the harness
+static std::vector<int> rowCellsBounded(const DetailedPlacement &p, int r, bool &cycle) {
+  std::vector<int> ret;
+  for (int c = p.rowFirstCell(r); c != -1; c = (c >= 0 && c < p.nbCells()) ? p.cellNext(c) : -1) {
+    if ((int)ret.size() > p.nbCells()) { cycle = true; break; }
+    ret.push_back(c);
+    if (c < 0 || c >= p.nbCells()) { cycle = true; break; }
+  }
+  return ret;
+}
+static bool hasCycle(const DetailedPlacement &p) { bool cyc = false; for (int r = 0; r < p.nbRows(); ++r) rowCellsBounded(p, r, cyc); return cyc; }
 static std::string state(const DetailedPlacement &p) {
   std::ostringstream s;
-  for (int r = 0; r < p.nbRows(); ++r) { if (r) s << ";"; bool f = true; for (int c : p.rowCells(r)) { if (!f) s << ","; f = false; s << c << ":" << p.cellX(c) << ":" << (int)p.cellOrientation(c); } }
+  for (int r = 0; r < p.nbRows(); ++r) {
+    if (r) s << ";";
+    bool f = true, cyc = false; std::vector<int> cells = rowCellsBounded(p, r, cyc);
+    if (cyc) { s << "CYCLE"; continue; }
+    for (int c : cells) { if (!f) s << ","; f = false; s << c << ":" << p.cellX(c) << ":" << (int)p.cellOrientation(c); }
+  }
   s << "|"; for (int c = 0; c < p.nbCells(); ++c) if (!p.isPlaced(c)) s << c << " ";
+  return s.str();
+}
+static std::string arrays(const DetailedPlacement &p) {
+  std::ostringstream s;
+  auto dump = [&](const char *n, const std::vector<int> &v) { s << " " << n << "="; for (size_t i = 0; i < v.size(); ++i) s << (i ? "," : "") << v[i]; };
+  s << " #"; dump("first", p.rowFirstCell_); dump("last", p.rowLastCell_); dump("pred", p.cellPred_); dump("next", p.cellNext_);
+  dump("row", p.cellRow_); dump("x", p.cellX_); dump("y", p.cellY_);
+  s << " orient="; for (size_t i = 0; i < p.cellOrientation_.size(); ++i) s << (i ? "," : "") << (int)p.cellOrientation_[i];
   return s.str();
 }
 static int tableOrient(int pol, int ro) { return (int)cellOrientationInRow(kPol[pol], (CellOrientation)ro); }
@@ -84,7 +114,7 @@ int main(int argc, char **argv) {
   std::string line;
   while (std::getline(std::cin, line)) {
     if (line.size() < 3) { printf("\n"); continue; }
-    IntReader r; r.v = vh_ints(line.substr(3));
+    IntReader r; r.v = vh_ints(line.substr(3)); const bool dc = line.compare(0, 2, "DC") == 0;
     if (sigsetjmp(vh_jmp, 1)) { printf(" / %s\n", vh_signame()); fflush(stdout); continue; }
     try {
       int nr = r.nx(); std::vector<Row> rows;
@@ -92,7 +122,7 @@ int main(int argc, char **argv) {
       int nc = r.nx(); std::vector<int> w(nc), x(nc), y(nc), idx(nc); std::vector<CellOrientation> ori(nc); std::vector<CellRowPolarity> pol(nc);
       for (int i = 0; i < nc; ++i) { w[i] = r.nx(); x[i] = r.nx(); int row = r.nx(); y[i] = rows[row].minY; pol[i] = kPol[r.nx()]; ori[i] = (CellOrientation)r.nx(); idx[i] = i; }
       DetailedPlacement p(rows, w, x, y, ori, pol, idx);
-      int nops = r.nx(); std::string out = "INIT " + state(p);
+      int nops = r.nx(); std::string out = "INIT " + state(p) + (dc ? arrays(p) : std::string());
       auto predOk = [&](int row, int pred) { return pred == -1 || (pred >= 0 && pred < nc && p.isPlaced(pred) && p.cellRow(pred) == row); };
       for (int k = 0; k < nops; ++k) {
         int t = r.nx(); bool ok = false;
@@ -102,10 +132,10 @@ int main(int argc, char **argv) {
           else if (t == 2) { int a = r.nx(); if (p.isPlaced(a)) { p.unplace(a); ok = true; } }
           else { int a = r.nx(), row = r.nx(), pred = r.nx(), xx = r.nx(); if (!p.isPlaced(a) && predOk(row, pred) && p.canPlace(a, row, pred, xx)) { p.place(a, row, pred, xx); ok = true; } }
         } catch (std::exception &e) { out += std::string(" / THROW ") + e.what(); continue; }
-        out += std::string(" / ") + (ok ? "OK " : "NO ") + state(p);
+        out += std::string(" / ") + (ok ? "OK " : "NO ") + state(p) + (dc ? arrays(p) : std::string());
         // with every cell placed the code's own consistency check must pass
         bool all = true; for (int c = 0; c < nc; ++c) all = all && p.isPlaced(c);
-        if (all) { try { p.check(); } catch (std::exception &e) { out += std::string(" CHECKFAIL ") + e.what(); } }
+        if (all) { if (hasCycle(p)) out += " CHECKFAIL cyclic cellNext_ chain"; else try { p.check(); } catch (std::exception &e) { out += std::string(" CHECKFAIL ") + e.what(); } }
       }
       printf("%s\n", out.c_str());
     } catch (std::exception &ex) { printf("THROW-OUTER %s\n", ex.what()); }
